@@ -32,8 +32,10 @@ fn prog(name: &str, setup: Vec<TOp>, threads: Vec<Vec<TOp>>) -> Arc<Prog> {
         strict_unlink: true,
         fs_switch: false,
         recover_at_removals: false,
-            recover_at_meta: false,
+        recover_at_meta: false,
         fault: None,
+        fault_thread: None,
+        final_directory: false,
     })
 }
 
@@ -120,6 +122,8 @@ pub fn c06_programs() -> Vec<Arc<Prog>> {
             recover_at_removals: false,
             recover_at_meta: false,
             fault: None,
+            fault_thread: None,
+            final_directory: false,
         })
     };
     let pre = vec![Batch(vec![(0, Some(1)), (1, Some(2))])];
@@ -350,6 +354,8 @@ pub fn c03_programs() -> Vec<Arc<Prog>> {
             recover_at_removals: false,
             recover_at_meta: false,
             fault: None,
+            fault_thread: None,
+            final_directory: false,
         })
     };
     let pre = vec![Put(0, 1, 8), Flush, Put(1, 2, 8), Flush];
@@ -377,6 +383,8 @@ pub fn c09_programs() -> Vec<Arc<Prog>> {
             recover_at_removals: false,
             recover_at_meta: false,
             fault: None,
+            fault_thread: None,
+            final_directory: false,
         })
     };
     vec![
@@ -423,6 +431,8 @@ pub fn c11_removal_programs() -> Vec<Arc<Prog>> {
             recover_at_removals: true,
             recover_at_meta: false,
             fault: None,
+            fault_thread: None,
+            final_directory: false,
         })
     };
     let l0 = vec![Put(0, 1, 8), Flush, Put(0, 2, 8), Flush, Put(0, 3, 8), Flush, Put(0, 4, 8)];
@@ -434,6 +444,39 @@ pub fn c11_removal_programs() -> Vec<Arc<Prog>> {
             vec![Put(0, 1, 8), Flush, Put(0, 2, 8), Flush, Put(0, 3, 8), Flush, Put(0, 4, 8), Flush, Put(0, 5, 8), Flush, Put(0, 6, 8)],
             vec![vec![Put(1, 7, 8), Put(0, 8, 8), Put(1, 9, 8)], vec![Get(0)]],
         ),
+    ]
+}
+
+/// C11 "nothing dead is kept", schedule x fault: one reader whose table reads fail runs against a
+/// writer / flush / compaction that installs new versions meanwhile; only the reader's filesystem
+/// calls fail, so the background work stays healthy. After the threads have joined the fault is
+/// disarmed, everything is compacted and the directory must hold exactly the needed files.
+pub fn c11_fault_programs() -> Vec<Arc<Prog>> {
+    use crate::vfs::class;
+    let p = |name: &str, cfg: Cfg, setup: Vec<TOp>, threads: Vec<Vec<TOp>>, fault: (u32, &'static str)| {
+        Arc::new(Prog {
+            name: name.to_string(),
+            cfg,
+            keys: kab(),
+            setup,
+            threads,
+            strict_unlink: true,
+            fs_switch: false,
+            recover_at_removals: false,
+            recover_at_meta: false,
+            fault: Some(fault),
+            fault_thread: Some(0),
+            final_directory: true,
+        })
+    };
+    let big = Cfg::new(4 << 20, 300, 16, true);
+    let l0 = vec![Put(0, 1, 8), Flush, Put(1, 2, 8), Flush, Put(0, 3, 8)];
+    vec![
+        p("failing-get||flush", big, l0.clone(), vec![vec![Get(0), Get(1)], vec![Flush]], (class::READ, ".rdb")),
+        p("failing-get||compact", big, l0.clone(), vec![vec![Get(1), Get(0)], vec![Compact(None, None)]], (class::READ, ".rdb")),
+        p("failing-get||rotating-writer", rot_cfg(), l0.clone(), vec![vec![Get(1), Get(0)], vec![Put(1, 4, 8), Put(0, 5, 8), Put(1, 6, 8)]], (class::READ, ".rdb")),
+        p("failing-scan||flush", big, l0.clone(), vec![vec![IterScan, Get(1)], vec![Flush, Put(1, 7, 8)]], (class::READ, ".rdb")),
+        p("failing-open-of-table||compact", big, l0, vec![vec![Get(1), SnapRead(vec![0, 1])], vec![Compact(None, None)]], (class::OPEN, ".rdb")),
     ]
 }
 
@@ -466,6 +509,8 @@ pub fn c09_fault_programs() -> Vec<Arc<Prog>> {
             recover_at_removals: false,
             recover_at_meta: false,
             fault: Some(fault),
+            fault_thread: None,
+            final_directory: false,
         })
     };
     vec![
